@@ -34,6 +34,7 @@ type SpecEnv struct {
 	old      *State
 	names    map[string]SVal
 	oldNames map[string]SVal
+	noAssume bool
 	atBlock  *ssa.BasicBlock
 	sub      map[ssa.Value]Val
 	pkg      *types.Package
@@ -360,6 +361,20 @@ func (env *SpecEnv) object(o types.Object) SVal {
 		}
 		pv := vc.globalPlace(g)
 		t := vc.loadPlace(env.st, pv.P)
+		if isPointer(x.Type()) && vc.topEntry.T != nil && env.st != nil && !env.noAssume {
+			// what a global that this function has not written points to was allocated before entry
+			unwritten := strings.HasPrefix(pv.P.Comp, "GC:")
+			if !unwritten && vc.top != nil && vc.top.entrySt != nil {
+				if e, ok := vc.top.entrySt.heap.known[pv.P.Comp]; ok {
+					if c, ok2 := env.st.heap.known[pv.P.Comp]; ok2 && c.S == e.S {
+						unwritten = true
+					}
+				}
+			}
+			if unwritten {
+				vc.assume(env.st, mk(fmt.Sprintf("(< %s %s)", t.S, vc.topEntry.S), sortBool))
+			}
+		}
 		return vc.svalOfLoaded(t, x.Type())
 	case *types.Func:
 		sp := vc.P.SSA.Package(x.Pkg())
